@@ -126,6 +126,14 @@ class ExprMixin(object):
             setattr(self, name, value)
 
 
+def _operandtext(operand, render):
+    # unary expressions and negative numbers bind differently once they are pasted next to another operator
+    text = render(operand)
+    if isinstance(operand, UniExpr) or (isinstance(operand, (int, float)) and not isinstance(operand, bool) and text.startswith("-")):
+        return "(%s)" % (text,)
+    return text
+
+
 class UniExpr(ExprMixin):
 
     def __init__(self, op, operand):
@@ -133,10 +141,10 @@ class UniExpr(ExprMixin):
         self.operand = operand
 
     def __repr__(self):
-        return "%s %r" % (opnames[self.op], self.operand)
+        return "%s %s" % (opnames[self.op], _operandtext(self.operand, repr))
 
     def __str__(self):
-        return "%s %s" % (opnames[self.op], self.operand)
+        return "%s %s" % (opnames[self.op], _operandtext(self.operand, str))
 
     def __call__(self, obj, *args):
         operand = self.operand(obj) if callable(self.operand) else self.operand
@@ -151,10 +159,10 @@ class BinExpr(ExprMixin):
         self.rhs = rhs
 
     def __repr__(self):
-        return "(%r %s %r)" % (self.lhs, opnames[self.op], self.rhs)
+        return "(%s %s %s)" % (_operandtext(self.lhs, repr), opnames[self.op], _operandtext(self.rhs, repr))
 
     def __str__(self):
-        return "(%s %s %s)" % (self.lhs, opnames[self.op], self.rhs)
+        return "(%s %s %s)" % (_operandtext(self.lhs, str), opnames[self.op], _operandtext(self.rhs, str))
 
     def __call__(self, obj, *args):
         lhs = self.lhs(obj) if callable(self.lhs) else self.lhs
